@@ -448,6 +448,26 @@ pub fn wrap_blocks(rng: &mut Rng, cfg: &mut NetCfg, p: f64) {
     }
 }
 
+/// insert_block, and the inserted block gets random internal skips (input skips, output skips)
+/// and a random accumulation.
+pub fn insert_block_skips(rng: &mut Rng, cfg: &mut NetCfg, max_loops: usize) -> bool {
+    let before = cfg.layers.len();
+    if !insert_block(rng, cfg, max_loops) {
+        return false;
+    }
+    let (i, o, a) = (rng.bool(), rng.bool(), *rng.pick(&crate::cfg::ACCS));
+    if cfg.layers.len() == before + 1 {
+        for l in cfg.layers.iter_mut() {
+            if let LCfg::Feedback { inskips, outskips, acc, .. } = l {
+                *inskips = i;
+                *outskips = o;
+                *acc = a;
+            }
+        }
+    }
+    true
+}
+
 /// Inserts a shape-preserving feedback block (no internal skips, mean coupling) at a random
 /// position before the last layer; returns false if that made the network invalid.
 pub fn insert_block(rng: &mut Rng, cfg: &mut NetCfg, max_loops: usize) -> bool {
